@@ -106,6 +106,10 @@ def extract(repo):
                 n_calls += len(re.findall(r"\.ack_ranges\s*\.(?:insert\w*|union|insert_front)\(", txt))
     o.define("insertCallSites", "Nat × Bool", f"({n_calls}, {'true' if 'insert_packet_number(' in pp else 'false'})",
              "number of places in s2n-quic-transport (non-test) that add to an `.ack_ranges` field (`.ack_ranges.insert*(` / `.union(`), and whether on_processed_packet has the insert")
+    # an insertion that reports an error (range could not be inserted / the LOWEST range was evicted to make room for this packet)
+    # only publishes events: the rest of on_processed_packet (ECN count, on_update, activation, ack-delay timer) still runs
+    o.define("processedEarlyExits", "Nat", str(len(re.findall(r"\breturn\b", pp))),
+             "number of `return` statements in on_processed_packet (the function returns `()`; the model runs every step for every processed packet)")
     hp = fn_body(sp, "handle_cleartext_payload") or ""
     i_icpt = hp.find("intercept_rx_payload(")
     i_loop = hp.find("while !payload.is_empty()")
